@@ -296,6 +296,58 @@ func sameLayerInterference(l []imgkit.Entry) bool {
 
 type mismatch struct{ kind, detail string }
 
+// handleLaws: "content" also means what a reader gets through the other access paths of a file
+// handle, and that one handle does not disturb another: a second Open of the same path while the
+// first handle is part-way through yields the whole content again; ReadAt and Seek address the
+// same bytes as a sequential read.
+func handleLaws(fsys scalibrfs.FS, p, data string) *mismatch {
+	f1, err := fsys.Open(p)
+	if err != nil {
+		return &mismatch{"lookup-misses-present-path", fmt.Sprintf("second Open(%q): %v", p, err)}
+	}
+	defer f1.Close()
+	if len(data) > 0 {
+		one := make([]byte, 1)
+		if k, _ := f1.Read(one); k != 1 || one[0] != data[0] {
+			return &mismatch{"wrong-content", fmt.Sprintf("Open(%q): first byte %q (n=%d), model %q", p, one, k, data[:1])}
+		}
+	}
+	f2, err := fsys.Open(p)
+	if err != nil {
+		return &mismatch{"lookup-misses-present-path", fmt.Sprintf("Open(%q) while another handle is open: %v", p, err)}
+	}
+	b2, rerr := io.ReadAll(f2)
+	if rerr != nil || string(b2) != data {
+		f2.Close()
+		return &mismatch{"handles-not-independent", fmt.Sprintf("Open(%q) while another handle on it has consumed 1 byte: read %q (err %v), model %q", p, b2, rerr, data)}
+	}
+	f2.Close()
+	// the first handle continues where it was
+	rest, rerr := io.ReadAll(f1)
+	if len(data) > 0 && (rerr != nil || string(rest) != data[1:]) {
+		return &mismatch{"handles-not-independent", fmt.Sprintf("Open(%q): after another handle was opened, read to its end and closed, the first handle continues with %q (err %v), model %q", p, rest, rerr, data[1:])}
+	}
+	if ra, ok := f1.(io.ReaderAt); ok && len(data) > 0 {
+		for off := 0; off < len(data); off++ {
+			buf := make([]byte, len(data)-off)
+			k, err := ra.ReadAt(buf, int64(off))
+			if k != len(buf) || string(buf) != data[off:] || (err != nil && err != io.EOF) {
+				return &mismatch{"wrong-content", fmt.Sprintf("ReadAt(%q, off %d) = %q n=%d err=%v, model %q", p, off, buf, k, err, data[off:])}
+			}
+		}
+	}
+	if sk, ok := f1.(io.Seeker); ok && len(data) > 0 {
+		if pos, err := sk.Seek(-1, io.SeekEnd); err != nil || pos != int64(len(data)-1) {
+			return &mismatch{"wrong-content", fmt.Sprintf("Seek(%q, -1, end) = %d, %v; model %d", p, pos, err, len(data)-1)}
+		}
+		last, _ := io.ReadAll(f1)
+		if string(last) != data[len(data)-1:] {
+			return &mismatch{"wrong-content", fmt.Sprintf("Seek(%q, -1, end) then read: %q, model %q", p, last, data[len(data)-1:])}
+		}
+	}
+	return nil
+}
+
 // modeBits keeps permission and setuid/setgid/sticky bits of a file mode.
 func modeBits(m fs.FileMode) fs.FileMode {
 	return m & (fs.ModePerm | fs.ModeSetuid | fs.ModeSetgid | fs.ModeSticky)
@@ -397,6 +449,9 @@ func compareView(fsys scalibrfs.FS, m imgkit.Model, universe []string, requiredO
 			f.Close()
 			if rerr != nil || string(b) != n.Data {
 				return &mismatch{"wrong-content", fmt.Sprintf("Open(%q) read %q err %v, model %q", p, b, rerr, n.Data)}
+			}
+			if m := handleLaws(fsys, p, n.Data); m != nil {
+				return m
 			}
 		}
 	}
@@ -938,7 +993,7 @@ func main() {
 	// A whiteout or an opaque marker on "a" must not touch "ab" or "a.b"; any implementation that
 	// compares paths as strings rather than component-wise differs from the overlay model here.
 	{
-		pu := []string{"a", "a/x", "ab", "ab/x", "a.b"}
+		pu := []string{"a", "a/x", "ab", "ab/x", "a.b", "a.wh.b"} // "a.wh.b": the whiteout marker prefix inside a name
 		var po []imgkit.Entry
 		for _, p := range pu {
 			po = append(po, imgkit.File(p, "1"), imgkit.Entry{Name: p, Kind: "dir", Mode: 0o1750}, imgkit.Whiteout(p), imgkit.Opaque(p))
@@ -1006,5 +1061,5 @@ func main() {
 	}
 	os.RemoveAll(base)
 	r.Assume("imgkit.Model.Apply (~60 lines) is the OCI image-spec change-set application: whiteouts act on lower layers only, then the layer's entries are added")
-	r.Finish(fmt.Sprintf("universe %v; entry kinds: file(2 contents/modes), dir, whiteout, opaque marker per path + 2 symlinks (%d options); layers = all well-formed sets of <=%d entries (%d); all 1- and 2-layer images, every entry order per layer (plain names), canonical order with './' and '/' name styles; for images where an upper layer touches a lower one: 5 history arrangements incl. empty layers at every position and a short history, missing config, requirer none/each path; deep-pruning family (file 4 levels down x requirers); prefix-sibling family (names a, a/x, ab, ab/x, a.b; lower layer <=2 (thorough 3) entries x upper layer 1 (thorough <=2) entry, + a third layer on top); squashed on-disk unpack AND a FromTarball load of the saved tarball for all pairs of single-entry layers; thorough adds all 3-layer images (<=%d,<=%d,1). Each view: Stat/Open+Read on every universe path + 2 absent paths, ReadDir of every directory, WalkDir. non-trivial = an upper-layer entry overlaps a lower-layer entry", universe, len(opts), maxEntries, len(sets), maxEntries, maxEntries), complete)
+	r.Finish(fmt.Sprintf("universe %v; entry kinds: file(2 contents/modes), dir, whiteout, opaque marker per path + 2 symlinks (%d options); layers = all well-formed sets of <=%d entries (%d); all 1- and 2-layer images, every entry order per layer (plain names), canonical order with './' and '/' name styles; for images where an upper layer touches a lower one: 5 history arrangements incl. empty layers at every position and a short history, missing config, requirer none/each path; deep-pruning family (file 4 levels down x requirers); prefix-sibling family (names a, a/x, ab, ab/x, a.b, a.wh.b; lower layer <=2 (thorough 3) entries x upper layer 1 (thorough <=2) entry, + a third layer on top); squashed on-disk unpack AND a FromTarball load of the saved tarball for all pairs of single-entry layers; thorough adds all 3-layer images (<=%d,<=%d,1). Each view: Stat/Open+Read (plus: a second handle opened while the first is part-way through, ReadAt at every offset, Seek from the end) on every universe path + 2 absent paths, ReadDir of every directory, WalkDir. non-trivial = an upper-layer entry overlaps a lower-layer entry", universe, len(opts), maxEntries, len(sets), maxEntries, maxEntries), complete)
 }
